@@ -120,6 +120,12 @@ def index_to_loc(body: str, position: int) -> Tuple[int, int]:
         elif char == "\n":
             lines += 1
             cols = 0
+        elif char == "\r":
+            # Line terminators are LF, CR and CRLF (see LINE_SEPARATOR): a lone
+            # CR ends the line, the CR of a CRLF pair has no width.
+            if body[offset + 1 : offset + 2] != "\n":
+                lines += 1
+                cols = 0
         else:
             cols += 1
     return (lines + 1, cols + 1)
